@@ -72,12 +72,28 @@ fn build_shape<F: Backend>(p: &Prog) -> Shape<F> {
 
 fn render2d<F: Backend + RenderHints>(w: u32, h: u32, tile: usize) -> Workload {
     let scene = &scene::scenes_2d()[7]; // min-chain of 4 circles: tiles simplify differently
-    let shape = build_shape::<F>(&scene.prog);
+    render2d_scene::<F>("", &scene.prog, w, h, tile, nalgebra::Matrix3::identity(), 4, true)
+}
+
+/// Many root tiles of a single tile level over a scene whose tiles produce
+/// many different traces (some of which do not shorten the tape): every root
+/// tile is one simplify call on the render handle of the job that executes it,
+/// so per-handle state carried from tile to tile shows up as a dependence on
+/// how the tile list is cut into jobs.
+fn render2d_many_tiles<F: Backend + RenderHints>() -> Workload {
+    let mut m = nalgebra::Matrix3::identity();
+    m.prepend_translation_mut(&nalgebra::Vector2::new(0.25, 0.125));
+    render2d_scene::<F>("two clipped disks, ", &crate::c10::clipped_disks(), 64, 32, 8, m, 3, false)
+}
+
+#[allow(clippy::too_many_arguments)]
+fn render2d_scene<F: Backend + RenderHints>(label: &str, prog: &Prog, w: u32, h: u32, tile: usize, mat: nalgebra::Matrix3<f32>, max_jobs: usize, polls_switch: bool) -> Workload {
+    let shape = build_shape::<F>(prog);
     Workload {
-        name: format!("{} 2D render {w}x{h} tiles [{tile}]", F::NAME),
+        name: format!("{} 2D render {label}{w}x{h} tiles [{tile}]", F::NAME),
         run: Box::new(move |pool, cancel| {
             let vars = ShapeVars::<f32>::new();
-            let cfg = fidget_raster::pixel::RenderConfig { image_size: ImageSize::new(w, h), world_to_model: nalgebra::Matrix3::identity(), pixel_perfect: false, z: 0.0 };
+            let cfg = fidget_raster::pixel::RenderConfig { image_size: ImageSize::new(w, h), world_to_model: mat, pixel_perfect: false, z: 0.0 };
             let ecfg = fidget_raster::pixel::EvalConfig { tile_sizes: Some(TileSizes::new(&[tile]).unwrap()), threads: pool, cancel: cancel.clone() };
             fidget_raster::pixel::render(shape.bind(&vars).unwrap(), &cfg, &ecfg).map(|img| {
                 img.iter()
@@ -89,8 +105,8 @@ fn render2d<F: Backend + RenderHints>(w: u32, h: u32, tile: usize) -> Workload {
             })
         }),
         pool_threads: 4,
-        max_jobs: 4,
-        polls_switch: true,
+        max_jobs,
+        polls_switch,
         global: false,
     }
 }
@@ -515,6 +531,8 @@ enum Unit {
     NoPool { kind: u8 },
     SharedTape { jit: bool },
     Effects,
+    /// 32 root tiles of one level over a scene with many distinct traces
+    ManyTiles { jit: bool },
     /// the same workloads through ThreadPool::Global
     Global { kind: u8, cancel: bool },
 }
@@ -553,6 +571,8 @@ fn units(tier: Tier) -> Vec<Unit> {
     v.push(Unit::SharedTape { jit: false });
     v.push(Unit::SharedTape { jit: true });
     v.push(Unit::Effects);
+    v.push(Unit::ManyTiles { jit: false });
+    v.push(Unit::ManyTiles { jit: true });
     for kind in 0..3 {
         for cancel in [false, true] {
             v.push(Unit::Global { kind, cancel });
@@ -573,7 +593,7 @@ impl Check for C09 {
     }
     fn meta(&self, tier: Tier) -> Meta {
         Meta {
-            rule: "case = one complete execution of a real workload under a recorded schedule; the rayon stand-in resolves every decision from the schedule: (1) how the task list is cut into contiguous jobs (every composition up to max_jobs; map_init's init runs once per job), (2) which runnable job holds the baton at each scheduling point - parallel-op start, job end, and the verif-hooks points at the start of each raster root-tile task, each tile-recursion entry and each octree task (raster: also each cancellation poll) - explored by stateless re-execution in order of increasing preemption count up to the bound, (3) the environment's single step CancelToken::cancel(), offered at every scheduling point and at EVERY cancellation poll (per octree cell, per tile) until it has fired; workloads: 2D render with 2, 3, 4 root tiles, 3D render with 2, 3, 4 root tiles, octree meshing for one pool size per pre-split class (the pool size reaches the mesher only through target_count = min(8^depth, 10*threads): depth 0 -> the root cell alone; depth 1 -> 8 tasks for every n; depth 2 -> 15, 22, 36, 43, 50 tasks for n = 1..5 and 64 for n >= 6; quick: depths 0 and 1 n in {1,16}, depth 2 n in {1,2}; thorough: depth 2 n in {1..6,16} and depth 3 n in {1,7}), VM (+ JIT on one workload per kind), plus the no-pool paths (cancel at every poll), ThreadPool::Global (one workload per kind), and the row-parallel post-processing effects denoise_normals + apply_shading (6 rows cut into <= 3 jobs; SSAO excluded: unseeded RNG); oracles: never cancelled => Some(r) with r equal to the sequential no-pool result (images bitwise, meshes as sorted multisets of rotation-normalised triangles over vertex bit patterns); cancelled => None or exactly the full result, and None when the token is set at the first opportunity; one schedule per workload is replayed twice and must reproduce trace and observation; a prefix that diverges is a machinery error; shared tapes: 3 controlled threads x 2 rounds of point / interval / float-slice / grad-slice evaluation through handles onto one set of tapes, with a scheduling point before each round's tracing evaluations and before its bulk evaluations (4 per thread), explored like the other workloads, each thread's results equal to its solo results; labelled sampling supplement: the same bodies on free-running OS threads (200 rounds) - reported under its own counter, not deciding".into(),
+            rule: "case = one complete execution of a real workload under a recorded schedule; the rayon stand-in resolves every decision from the schedule: (1) how the task list is cut into contiguous jobs (every composition up to max_jobs; map_init's init runs once per job), (2) which runnable job holds the baton at each scheduling point - parallel-op start, job end, and the verif-hooks points at the start of each raster root-tile task, each tile-recursion entry and each octree task (raster: also each cancellation poll) - explored by stateless re-execution in order of increasing preemption count up to the bound, (3) the environment's single step CancelToken::cancel(), offered at every scheduling point and at EVERY cancellation poll (per octree cell, per tile) until it has fired; workloads: 2D render with 2, 3, 4 root tiles and with 32 root tiles of one level over a scene with many distinct tile traces (each root tile = one simplify on the job's render handle; <= 3 jobs), 3D render with 2, 3, 4 root tiles, octree meshing for one pool size per pre-split class (the pool size reaches the mesher only through target_count = min(8^depth, 10*threads): depth 0 -> the root cell alone; depth 1 -> 8 tasks for every n; depth 2 -> 15, 22, 36, 43, 50 tasks for n = 1..5 and 64 for n >= 6; quick: depths 0 and 1 n in {1,16}, depth 2 n in {1,2}; thorough: depth 2 n in {1..6,16} and depth 3 n in {1,7}), VM (+ JIT on one workload per kind), plus the no-pool paths (cancel at every poll), ThreadPool::Global (one workload per kind), and the row-parallel post-processing effects denoise_normals + apply_shading (6 rows cut into <= 3 jobs; SSAO excluded: unseeded RNG); oracles: never cancelled => Some(r) with r equal to the sequential no-pool result (images bitwise, meshes as sorted multisets of rotation-normalised triangles over vertex bit patterns); cancelled => None or exactly the full result, and None when the token is set at the first opportunity; one schedule per workload is replayed twice and must reproduce trace and observation; a prefix that diverges is a machinery error; shared tapes: 3 controlled threads x 2 rounds of point / interval / float-slice / grad-slice evaluation through handles onto one set of tapes, with a scheduling point before each round's tracing evaluations and before its bulk evaluations (4 per thread), explored like the other workloads, each thread's results equal to its solo results; labelled sampling supplement: the same bodies on free-running OS threads (200 rounds) - reported under its own counter, not deciding".into(),
             bounds: match tier {
                 Tier::Quick => "preemption bound 2 (raster, shared tape), 1 (mesh); schedules are explored in order of increasing preemption count and capped at 12000 per workload: a workload that hits the cap is fully explored only up to the bound recorded in the counters workloads_fully_explored_to_preemption_bound_<k>".into(),
                 Tier::Thorough => "preemption bound 2 (raster, mesh), 3 (shared tape); schedules are explored in order of increasing preemption count and capped at 100000 per workload: a workload that hits the cap is fully explored only up to the bound recorded in the counters workloads_fully_explored_to_preemption_bound_<k>".into(),
@@ -628,6 +648,10 @@ impl Check for C09 {
                 wl.global = true;
                 wl.name = format!("{} (ThreadPool::Global)", wl.name);
                 explore(cx, &mut sub, &wl, true, cancel, if kind == 2 && tier == Tier::Quick { 1 } else { 2 }, cap);
+            }
+            Unit::ManyTiles { jit } => {
+                let wl = if jit { render2d_many_tiles::<JitFunction>() } else { render2d_many_tiles::<VmFunction>() };
+                explore(cx, &mut sub, &wl, true, false, 1, cap);
             }
             Unit::Effects => {
                 explore(cx, &mut sub, &effects(), true, false, 2, cap);
